@@ -195,7 +195,16 @@ def translate():
     except Exception:
         rep['ppf'] = {'error': out8[-500:]}
         rep['untranslatable'].append({'name': 'make_parameter_pack_for', 'group': 'Ppf', 'why': out8[-500:]})
-    return rep, out + out2 + out3 + out4 + out5 + out6 + out7 + out8
+    # the special members of array::owning_data_t (Gen_Own.v)
+    rc9, out9 = sh([sys.executable, os.path.join(VERIF, 'tools', 'cxx_own.py'), REPO, os.path.join(COQ, 'gen', 'Gen_Own.v')], timeout=300)
+    try:
+        rep['own'] = json.loads(out9.strip().split('\n')[-1])
+        for pr in rep['own']['problems']:
+            rep['untranslatable'].append({'name': 'array::owning_data_t', 'group': 'Own', 'why': pr})
+    except Exception:
+        rep['own'] = {'error': out9[-500:]}
+        rep['untranslatable'].append({'name': 'array::owning_data_t', 'group': 'Own', 'why': out9[-500:]})
+    return rep, out + out2 + out3 + out4 + out5 + out6 + out7 + out8 + out9
 
 
 def coq_makefile():
